@@ -196,7 +196,7 @@ def opToks (o : BinOp) : List PTok :=
 /-- `pretty_print_binop`, given the tokens `tl`, `tr` of the two operands -/
 def binopToks (op : BinOp) (l r : Expr) (tl tr : List PTok) : List PTok :=
   match op with
-  | .conv => (if l.isCond then withParens l tl else tl) ++ opToks .conv ++ tr
+  | .conv => (if l.isCond then withParens l tl else tl) ++ opToks .conv ++ (if r.isCond then withParens r tr else tr)
   | .mul =>
     (match l, r with
      | .num b t, .unit p n => [.num b t, .sp, .unit (p ++ n)]
@@ -273,8 +273,8 @@ def ptoks : Expr → List PTok
      | [a], .ident name =>
        (match sugarOfCallable name with
         | some s => sugarToks s a (ptoksArgs args)
-        | none => ptoks callee ++ [.sym .lp] ++ ptoksArgs args ++ [.sym .rp])
-     | _, _ => ptoks callee ++ [.sym .lp] ++ ptoksArgs args ++ [.sym .rp])
+        | none => withParens callee (ptoks callee) ++ [.sym .lp] ++ ptoksArgs args ++ [.sym .rp])
+     | _, _ => withParens callee (ptoks callee) ++ [.sym .lp] ++ ptoksArgs args ++ [.sym .rp])
   | .bool true => [.kwTrue]
   | .bool false => [.kwFalse]
   | .cond c t e =>
@@ -287,7 +287,7 @@ def ptoks : Expr → List PTok
      | [] => []
      | _ => [.sp] ++ ptoksFields fnames fvals ++ [.sp]) ++
     [.sym .rcurly]
-  | .get e f => ptoks e ++ [.sym .dot, .id f]
+  | .get e f => withParens e (ptoks e) ++ [.sym .dot, .id f]
   | .list es => [.sym .lbrack] ++ ptoksArgs es ++ [.sym .rbrack]
   | .hole => [.sym .hole]
 /-- expressions separated by `,` and a blank -/
